@@ -15,6 +15,8 @@
 (*  (C08) the shim sees exactly Commands!ExecDecode of the bytes sent      *)
 (* The reference is the specification-level registry (`ref`) used by the   *)
 (* trace monitor; each deviation constant reproduces a realistic defect    *)
+(* (two of them, ClearsOnlyOwn and KeepsEmptyLong, are seeded defects of   *)
+(* round 5 turned into deviations)                                         *)
 (* and must make TLC report a violation (MCdev_Stmts_*.cfg).               *)
 (***************************************************************************)
 EXTENDS Commands, FiniteSets, Json
@@ -23,7 +25,9 @@ CONSTANTS Ids, MaxHist,
           FlagConsumedWhenZero,   \* FALSE: the pinned params.rs defect
           ClearsLongData,         \* FALSE: long_data.clear() forgotten
           RemoveOnClose,          \* FALSE: stmts.remove forgotten
-          ReprepareFresh          \* FALSE: re-prepare keeps bound types / long data
+          ReprepareFresh,         \* FALSE: re-prepare keeps bound types / long data
+          ClearsOnlyOwn,          \* FALSE: an execution clears the pending long data of EVERY statement
+          KeepsEmptyLong          \* FALSE: an empty long-data chunk does not mark its parameter as long data
 
 VARIABLES stmts, ref, cli, nhist, lastcb, result, viol, hist
 vars == <<stmts, ref, cli, nhist, lastcb, result, viol, hist>>
@@ -99,7 +103,7 @@ AddLong(long, p, chunk) == IF p \in DOMAIN long THEN [long EXCEPT ![p] = @ \o ch
 LongData(id, p, chunk) ==
   /\ Tick([op |-> "long", id |-> id, p |-> p, chunk |-> chunk])
   /\ (IF stmts[id].live
-      THEN /\ stmts' = [stmts EXCEPT ![id].long = AddLong(@, p, chunk)] /\ UNCHANGED <<result, lastcb>>
+      THEN /\ stmts' = [stmts EXCEPT ![id].long = IF ~KeepsEmptyLong /\ chunk = << >> THEN @ ELSE AddLong(@, p, chunk)] /\ UNCHANGED <<result, lastcb>>
       ELSE /\ result' = "err" /\ lastcb' = [k |-> "none"] /\ UNCHANGED stmts)
   /\ ref' = IF ref[id].live THEN [ref EXCEPT ![id].long = AddLong(@, p, chunk)] ELSE ref
   /\ viol' = viol \cup (IF stmts[id].live # ref[id].live THEN {"C10: long data accepted/refused against the registry reference"} ELSE {})
@@ -127,7 +131,8 @@ Execute(id, rebind, types, nulls) ==
                 /\ UNCHANGED <<stmts, ref, cli>>
               ELSE LET d == SrvDecode(p, e) IN
                 /\ lastcb' = [k |-> "execute", id |-> id, vals |-> d.vals]
-                /\ stmts' = [stmts EXCEPT ![id].bt = d.bt, ![id].long = IF ClearsLongData THEN NoLongF ELSE @]
+                /\ stmts' = [i \in AllIds |-> IF i = id THEN [stmts[i] EXCEPT !.bt = d.bt, !.long = IF ClearsLongData THEN NoLongF ELSE @]
+                                               ELSE IF ClearsOnlyOwn THEN stmts[i] ELSE [stmts[i] EXCEPT !.long = NoLongF]]
                 /\ ref' = [ref EXCEPT ![id].bt = IF want.ok THEN want.types ELSE @, ![id].long = NoLongF]
                 /\ cli' = [cli EXCEPT ![id].types = types]
                 /\ UNCHANGED result
